@@ -9,6 +9,11 @@ Local Open Scope list_scope.
 Lemma cache_guarded : forallb access_ok lock_facts = true.
 Proof. vm_compute. reflexivity. Qed.
 
+(* interprocedural part of the lockset: the entry lockset the translator assumed for every
+   helper (unexported function) really is held at every static call site it recorded *)
+Lemma helper_entry_locksets_sound : forallb helper_ok helper_facts = true.
+Proof. vm_compute. reflexivity. Qed.
+
 (* every cache operation that writes the maps holds the cache lock in a single
    critical section; the sweeping / deleting operations are present (non-vacuity) *)
 Definition atomic_writer (fn : string) : bool :=
@@ -64,6 +69,10 @@ Qed.
    configs are shallow copies and share those backing arrays *)
 Lemma config_slices_immutable : slice_muts = [].
 Proof. reflexivity. Qed.
+
+(* nobody writes, in place, to bytes that may alias a cached session's key *)
+Lemma cached_key_never_written : cached_key_writers key_writes = [].
+Proof. vm_compute. reflexivity. Qed.
 
 (* every call site of security.NewAuthenticator in the library passes a
    per-connection copy; the client, server and SecurityManager sites are
